@@ -266,6 +266,21 @@ def c16_burst(rng, count):
     return out
 
 
+def c16_patient_writer(rng):
+    """a destination that does not take anything for a while (6 s ... 3 min of virtual time: ordinary back-pressure - a
+    busy handler, a full worker pool, a slow reader behind it) and then goes on: nothing was given up, nobody was
+    disconnected, everything arrives in order"""
+    out = []
+    for k, ms in enumerate((6000, 12000, 45000, 180000)):
+        for n in (1, 5, 12):
+            ids = Ids()
+            steps = [attach('c1', 1), attach('c2', 2), attach('s1', 3), w(ids, 1, 'c1', 's1', rep=2), Q,
+                     fault('stuck', 3), w(ids, 1, 'c1', 's1', rep=n), w(ids, 2, 'c2', 'c1', rep=2), Q,
+                     dict(op='adv', n=ms), Q, fault('unstick', 3), Q, w(ids, 1, 'c1', 's1', rep=2), w(ids, 3, 's1', 'c1'), Q]
+            out.append(scen('C16', 'patient writer: destination silent for %d ms with %d waiting' % (ms, n), steps))
+    return out
+
+
 def c16_slow_consumer(rng, count):
     """a destination that falls behind and then takes envelopes one at a time while its sender goes on sending: whatever
     reaches it (the full queue may cost envelopes: known finding D11) reaches it in the order sent"""
@@ -445,10 +460,10 @@ def c16_rpc_reattach(rng, count):
 
 def generate_c16(tier, rng):
     if tier == 'quick':
-        s = c16_single(rng, 125) + c16_seq(rng, 145, 3, 2, 10) + c16_pairorder(rng, 30) + c16_dial(rng, 40) + c16_burst(rng, 30) + c16_slow_consumer(rng, 16)
+        s = c16_single(rng, 125) + c16_seq(rng, 145, 3, 2, 10) + c16_pairorder(rng, 30) + c16_dial(rng, 40) + c16_burst(rng, 30) + c16_slow_consumer(rng, 16) + c16_patient_writer(rng)
         s += c16_reattach(rng, 30) + c16_rpc(rng, 80, 3, 2) + c16_rpc_burst(rng, 12) + c16_rpc_reattach(rng, 8) + c16_attach_race(rng, 60) + c16_redial(rng, 8)
     else:
-        s = c16_single(rng, 100000) + c16_seq(rng, 6500, 8, 4, 24) + c16_pairorder(rng, 500) + c16_dial(rng, 800) + c16_burst(rng, 500) + c16_slow_consumer(rng, 300)
+        s = c16_single(rng, 100000) + c16_seq(rng, 6500, 8, 4, 24) + c16_pairorder(rng, 500) + c16_dial(rng, 800) + c16_burst(rng, 500) + c16_slow_consumer(rng, 300) + c16_patient_writer(rng)
         s += c16_reattach(rng, 600) + c16_rpc(rng, 1800, 8, 4) + c16_rpc_burst(rng, 100) + c16_rpc_reattach(rng, 100) + c16_attach_race(rng, 600) + c16_redial(rng, 80)
     return s
 
